@@ -566,6 +566,11 @@ fn body(ctx: &mut Ctx) {
                         ("BigInt checked_sub", call(ctx, || x.checked_sub(&y)), model_arith("-", &am, &bm, false)),
                         ("BigInt checked_mul", call(ctx, || x.checked_mul(&y)), model_arith("*", &am, &bm, false)),
                         ("BigInt checked_div", call(ctx, || x.checked_div(&y)), model_arith("/", &am, &bm, false)),
+                        // the Checked* trait impls are separate copies from the inherent methods (method syntax picks the inherent ones)
+                        ("CheckedAdd for BigInt", call(ctx, || num_traits::CheckedAdd::checked_add(&x, &y)), model_arith("+", &am, &bm, false)),
+                        ("CheckedSub for BigInt", call(ctx, || num_traits::CheckedSub::checked_sub(&x, &y)), model_arith("-", &am, &bm, false)),
+                        ("CheckedMul for BigInt", call(ctx, || num_traits::CheckedMul::checked_mul(&x, &y)), model_arith("*", &am, &bm, false)),
+                        ("CheckedDiv for BigInt", call(ctx, || num_traits::CheckedDiv::checked_div(&x, &y)), model_arith("/", &am, &bm, false)),
                     ] {
                         ctx.compared(1);
                         forms.names.insert(name.to_string());
